@@ -2,9 +2,9 @@
 //
 //   @refl I J      the equivalence laws on the I-th and J-th member of a fixed universe of reflected objects of three Go struct types
 //                  (RA{X int}, RB{X int; Y string}, RC{Z int}); output "<ij> <ji>" (a reported error or fault is an observation)
-// reflectedObject.Equals compares the receiver's attributes read from the argument and never the two types: objects of
-// different types can be Equal one way and raise the other way (known finding C07-reflected-object-equals-type; class
-// reflected-equals-type only when the two operands have different types).
+// reflectedObject.Equals compared the receiver's attributes read from the argument and never the two types: objects of
+// different types could be Equal one way and raise the other way (finding C07-reflected-object-equals-type, repaired in /repo
+// 6bcd3e3; class reflected-equals-type only when the two operands have different types).
 package c07
 
 import (
